@@ -94,7 +94,10 @@ def channel_fidelity(choi_1: np.ndarray, choi_2: np.ndarray, eps: float = 1e-7) 
 
     constraints.append(cvxpy.bmat([[choi_1, q_var.H], [q_var, choi_2]]) >> 0)
 
-    constraints.append(lam * np.identity(dim) <= cvxpy.real(partial_trace(q_var, [1], [dim, dim])))
+    # lam * I <= Re(Tr_out Q) in the Loewner order, where Re(X) = (X + X^dagger) / 2 is the Hermitian part. (The `<=` of
+    # cvxpy compares entry by entry, which is not this constraint.)
+    q_reduced = partial_trace(q_var, [1], [dim, dim])
+    constraints.append((q_reduced + q_reduced.H) / 2 >> lam * np.identity(dim))
 
     problem = cvxpy.Problem(objective, constraints)
 
